@@ -9,8 +9,8 @@ CONSTANTS
     Orders = {"open_first", "replay_first"}
     Modes = {"tol", "abs"}
     Lefts = {0, 1}
-    Quirks = {"MetaBeforeCrc", "TornTailAppend", "WriterFirst", "RepairTempReuse"}
-    Known = {"meta_before_crc", "torn_tail_append", "writer_before_recovery", "repair_temp_reuse"}
+    Quirks = {}
+    Known = {}
 INIT MCInit
 NEXT MCNext
 VIEW View
